@@ -192,6 +192,10 @@ static void judge_double(double d, vf::Rng& r, bool heavy) {
     return;
   }
   if ((size_t)n > g_maxlen) g_maxlen = n;
+  {
+    std::string wtxt = "double bits " + bits_hex(bits) + " -> \"" + text + "\"";
+    vf::witness(wtxt);
+  }
   if (((bits >> 52) & 0x7ff) == 0) c_sub.add();
   // grammar: a JSON number containing a fraction or an exponent
   size_t i = 0;
@@ -293,8 +297,8 @@ static void judge_u64(uint64_t v, bool roundtrip) {
 #if VF_SANITIZER
   free(out);
 #endif
+  if ((c_u.n & 0xfff) == 1 || bad) vf::witness(std::string("U64toa(") + ref + ") -> \"" + text + "\"");
   if (bad) {
-    vf::witness(&v, 8);
     vf::violation("u64toa-mismatch:" + std::to_string(m) + "digits", "U64toa(" + std::string(ref) + ") = \"" + vf::printable(text) + "\"");
     return;
   }
@@ -327,8 +331,8 @@ static void judge_i64(int64_t v, bool roundtrip) {
 #if VF_SANITIZER
   free(out);
 #endif
+  if ((c_i.n & 0xfff) == 1 || bad) vf::witness(std::string("I64toa(") + ref + ") -> \"" + text + "\"");
   if (bad) {
-    vf::witness(&v, 8);
     vf::violation("i64toa-mismatch:" + std::to_string(m) + "chars", "I64toa(" + std::string(ref) + ") = \"" + vf::printable(text) + "\"");
     return;
   }
